@@ -722,6 +722,64 @@ for trial in range(4 if Q else 30):
                        "times_first": first, "times_second": second, "times_fresh_path": np.asarray(fresh.rays.times)})
     m0.longitudinal_vel = old
 
+# ---- two DIFFERENT interior point sets with the same name and shape whose coordinates differ by a few nanometres (a
+#      surface re-measured, a set shifted by a rounding step), traced in ONE solver: each path gets the answer it gets alone
+for trial in range(6 if Q else 40):
+    cloud, group, dy, info = gen_group(False, 7, maxlegs=3)
+    lit = next((l for l in group if len(l[1]) >= 2), None)
+    if lit is None:
+        continue
+    mid = lit[1][0][1]
+    pts1 = make_points(cloud)
+    if pts1[mid].coords.dtype.kind != "f":
+        continue
+    shift = rng.uniform(-8e-9, 8e-9, size=pts1[mid].coords.shape)
+    pts2 = dict(pts1)
+    pts2[mid] = g.Points(np.array(pts1[mid].coords) + shift, pts1[mid].name)
+    fpa, fpb = make_fpath(pts1, lit), make_fpath(pts2, lit)
+    order = [fpa, fpb] if trial % 2 == 0 else [fpb, fpa]
+    both = ray.FermatSolver(tuple(order)).solve()
+    alone = {id(fp): ray.FermatSolver((make_fpath(pp, lit),)).solve() for fp, pp in ((fpa, pts1), (fpb, pts2))}
+    evaluations += 2
+    chk.count(boundary="near-equal-point-sets")
+    nontrivial.add(("near-equal", trial))
+    for fp, nm in ((fpa, "original"), (fpb, "shifted")):
+        ra = list(alone[id(fp)].values())[0]
+        rb = both[fp]
+        if not (np.array_equal(np.asarray(rb.times), np.asarray(ra.times)) and np.array_equal(np.asarray(rb.indices), np.asarray(ra.indices))):
+            chk.violation("near-equal-point-sets", f"the path through the {nm} point set gets, next to a path through a point set that differs "
+                          "by a few nanometres, another answer than when traced alone",
+                          {"points": {k: np.asarray(v.coords).tolist() for k, v in pts1.items()}, "path": [lit[0], lit[1]],
+                           "shift_of_set": int(mid), "shift": shift.tolist(), "solver_order": ["original", "shifted"] if trial % 2 == 0 else ["shifted", "original"],
+                           "times_together": np.asarray(rb.times, float), "times_alone": np.asarray(ra.times, float)})
+            break
+
+# ---- ray_tracing(views) on views whose paths are distinct Path objects describing the same path (a copy kept per view)
+import copy as _copy
+for trial in range(4 if Q else 30):
+    cloud, group, dy, info = gen_group(False, 6, maxlegs=3)
+    paths = make_arim_paths(cloud, group[:2] if len(group) >= 2 else group[:1])
+    twins = [_copy.copy(pp) if trial % 2 == 0 else arim.Path(pp.interfaces, pp.materials, pp.modes, name=pp.name + "'") for pp in paths]
+    for tw in twins:
+        tw.rays = None
+    views = [arim.View(paths[0], paths[-1], "v0"), arim.View(twins[0], twins[-1], "v1")]
+    ray.ray_tracing(views)
+    fresh = [arim.Path(pp.interfaces, pp.materials, pp.modes, name="fresh") for pp in paths]
+    ray.ray_tracing_for_paths(fresh)
+    evaluations += 1
+    chk.count(boundary="views-with-equal-paths")
+    nontrivial.add(("equal-paths", trial))
+    for pp, fr, who in [(a, f, "original") for a, f in zip(paths, fresh)] + [(a, f, "copy") for a, f in zip(twins, fresh)]:
+        if pp.rays is None or not (np.array_equal(np.asarray(pp.rays.times), np.asarray(fr.rays.times))
+                                   and np.array_equal(np.asarray(pp.rays.indices), np.asarray(fr.rays.indices))):
+            chk.violation("views-with-equal-paths", f"ray_tracing(views): the {who} Path object of two equal paths "
+                          + ("has no rays" if pp.rays is None else "has other rays than a freshly traced path"),
+                          {"points": {k: v.tolist() for k, v in cloud.items()}, "paths": [[l[0], l[1]] for l in group[:2]],
+                           "views": "View(p0, p1), View(copy of p0, copy of p1)", "who": who,
+                           "times": None if pp.rays is None else np.asarray(pp.rays.times, float),
+                           "times_fresh_path": np.asarray(fr.rays.times, float)})
+            break
+
 # ---- run the model inside coqc -------------------------------------------------
 for name, cases, shard in (("cases_small", coq_small, 60), ("cases_big", coq_big, 3)):
     if not cases:
